@@ -100,3 +100,10 @@ func init() {
 			"return fmt.Errorf(\"unknown or missing metadata: %T\", meta)", "return nil", "C11-V1", "checkMetadata coverage"},
 	)
 }
+
+func init() {
+	addMutants(
+		Mutant{"C17", "c17-torn-snapshot-used", "lake/journal/store.go", "Store.load",
+			"at, table = Nil, make(map[string]Entry)\n", "", "C17-S1", "uses a result of getSnapshot"},
+	)
+}
